@@ -21,6 +21,8 @@ structure Sample where
   id : Nat
   isNone : Bool
   isNaN : Bool
+  /-- the value is `+inf` or `-inf` (a valid sample for the property) -/
+  isInf : Bool := false
 deriving Repr, DecidableEq
 
 /-- `ResamplerConfig` (the fields the helper reads). -/
@@ -57,7 +59,7 @@ def addSample (h : Helper) (x : Sample) : Helper :=
            received := h.received + 1 }
 
 /-- `_StreamingHelper._receive_samples`: None/NaN samples never reach the helper. -/
-def accepted (x : Sample) : Bool := acceptsSample x.isNone x.isNaN
+def accepted (x : Sample) : Bool := acceptsSample x.isNone x.isNaN x.isInf
 
 def recv (h : Helper) (x : Sample) : Helper := if accepted x then addSample h x else h
 
